@@ -34,6 +34,7 @@ STREAMS = {
     "tbl": {"relevant": True, "desc": "BeaconVersion.from_pe_export_stamp / from_max_setting_enum"},
     "cfg": {"relevant": True, "desc": "BeaconConfig.version precedence (export stamp, then max setting enum)"},
     "fmt": {"relevant": True, "desc": "documented shape: format → BeaconVersion → same fields"},
+    "mono": {"relevant": True, "desc": "table monotonicity on every key pair through the real BeaconVersion constructors"},
 }
 TRUSTED = [
     "tools/harness/c18.py (struct.pack image builder = ground truth, generators, adapters); line protocol parsing in lean/CsVerif/Driver/C18.lean",
@@ -64,7 +65,7 @@ class Img:
     """A synthetic PE image with known field values."""
 
     def __init__(self, rng, *, arch="x86", lfanew=128, nsec=2, export="in", machine=None, magic_mz=None, marker="own",
-                 magic_pe=b"PE\x00\x00", append=b"", pad=0, raw_sizes=None, big_stamp=False):
+                 magic_pe=b"PE\x00\x00", append=b"", pad=0, raw_sizes=None, big_stamp=False, marker_at=None, overlap=False):
         self.arch = arch
         self.machine = machine if machine is not None else (AMD64 if arch == "x64" else I386)
         self.lfanew = lfanew
@@ -90,15 +91,24 @@ class Img:
             rawptr += rs
             va += 0x1000
         self.image_size = rawptr
+        self.marker_at = marker_at if (marker_at is not None and 64 <= marker_at and marker_at + 6 <= lfanew) else None
+        # overlapping sections: section 1 repeats the address range of section 0 (own raw data): the FIRST one must win
+        self.overlap = overlap and nsec >= 2 and self.sections[0]["vs"] > 0
+        if self.overlap:
+            self.sections[1]["va"] = self.sections[0]["va"]
+            self.sections[1]["vs"] = self.sections[0]["vs"] + rng.choice([0, 8])
+        self.decoy_export_off = None
         # export directory placement
         self.export_rva = 0
         self.export_file_off = None  # offset inside the image
         cands = [s for s in self.sections if s["vs"] > 0]
         if export == "in" and cands:
-            s = rng.choice(cands)
+            s = self.sections[0] if self.overlap else rng.choice(cands)
             delta = rng.choice([0, 0, 4, max(s["vs"] - 1, 0), rng.randrange(0, s["vs"])])
             self.export_rva = s["va"] + delta
             self.export_file_off = s["ptr"] + delta
+            if self.overlap and delta < self.sections[1]["vs"]:
+                self.decoy_export_off = self.sections[1]["ptr"] + delta
         elif export == "out":
             # RVA in no section: before the first, in a gap, exactly at VA+VirtualSize, or far away
             opts = [0x10, 0xFFFFFFF0]
@@ -150,6 +160,15 @@ class Img:
             buf[L:L + len(hdr)] = hdr
             if L < 64:
                 buf[60:64] = struct.pack("<i", L)  # keep e_lfanew authoritative (ground truth not claimed for such images)
+        if self.decoy_export_off is not None:
+            # what a "last matching section wins" reader would find
+            ed = struct.pack("<IIHHIIIIIII", 0, self.export_stamp ^ 0x5A5A5A5A, 0, 0, 0x3000, 1, 1, 1, 0x3100, 0x3200, 0x3300)
+            end = self.decoy_export_off + 40
+            if len(buf) < end:
+                buf += bytes(end - len(buf))
+            buf[self.decoy_export_off:end] = ed
+        if self.marker_at is not None:
+            buf[self.marker_at:self.marker_at + 6] = X64_MARK if is64 else X86_MARK
         if self.export_file_off is not None:
             ed = struct.pack("<IIHHIIIIIII", 0, self.export_stamp, 0, 0, 0x3000, 1, 1, 1, 0x3100, 0x3200, 0x3300)
             end = self.export_file_off + 40
@@ -199,25 +218,36 @@ def expectations(img: Img, prepend: bytes, data: bytes, start, pos0, maxrange):
     s = pos0 if start is None else start
     P = len(prepend)
     wellformed = (64 <= img.lfanew < maxrange and img.machine in (AMD64, I386) and s <= P < s + maxrange)
+    fc = first_candidate(data, s, maxrange)
+    if fc is None:
+        # no offset in range passes the e_lfanew + Machine test: nothing may be reported
+        return {"mz": "none", "arch": "none", "stamps": "ok_none_none", "mmz": "none", "mpe": "ok_none", "ppa": "ok_none_none"}
     if not wellformed:
         return exp
-    if first_candidate(data, s, maxrange) != P:
+    if fc != P:
         return exp  # an accidental earlier candidate (NoEarlierCandidate does not hold): no claim
     exp["mz"] = str(P)
     exp["arch"] = "x64" if img.machine == AMD64 else "x86"
     ex = "none"
-    if img.export_file_off is not None:
-        # first section (in header order) that contains the RVA
-        for sct in img.sections:
-            if sct["va"] <= img.export_rva < sct["va"] + sct["vs"]:
-                off = img.export_rva - sct["va"] + sct["ptr"]
-                assert off == img.export_file_off  # sections of the builder are disjoint
-                if off + 40 <= len(data) - P:
-                    ex = str(img.export_stamp)
-                break
+    # first section (in header order) that contains the RVA; the stamp is what the file holds at that place
+    for sct in img.sections:
+        if sct["va"] <= img.export_rva < sct["va"] + sct["vs"]:
+            off = img.export_rva - sct["va"] + sct["ptr"]
+            if off + 40 <= len(data) - P:
+                ex = str(struct.unpack_from("<I", data, P + off + 4)[0])
+                if img.export_file_off is not None:
+                    assert off == img.export_file_off and ex == str(img.export_stamp)
+            break
     exp["stamps"] = f"ok_{img.compile_stamp}_{ex}"
     # magic MZ
-    if img.stub_fits and img.marker != "none" and X86_MARK not in img.magic_mz and X64_MARK not in img.magic_mz:
+    if img.marker == "none" and img.marker_at is not None:
+        full = data[P:P + 256]
+        first = min([p for p in (full.find(X86_MARK), full.find(X64_MARK)) if p >= 0], default=-1)
+        if img.marker_at + 6 <= 256 and first == img.marker_at:
+            exp["mmz"] = C.hx(data[P:P + img.marker_at])   # everything before the marker
+        elif img.marker_at + 6 > 256 and first == -1:
+            exp["mmz"] = "none"                             # marker not completely inside the 256-byte window
+    elif img.stub_fits and img.marker != "none" and X86_MARK not in img.magic_mz and X64_MARK not in img.magic_mz:
         full = data[P:P + 256]
         # only claim when no *other* marker occurrence precedes (random header bytes): positions known from the builder
         stub_at = len(img.magic_mz)
@@ -270,7 +300,7 @@ def gen(tier, rng, shard, nshards):
         return (k % nshards) == shard
 
     # ---- 1. grid of synthetic images -------------------------------------------------------------
-    lfas = [64, 128, 200, 1023, 0, -1, 1024, 5000] + ([65, 1022, 40, 1, 63, -2147483648] if thorough else [1, 63])
+    lfas = [64, 128, 200, 400, 1023, 0, -1, 1024, 5000] + ([65, 1022, 40, 1, 63, -2147483648] if thorough else [1, 63])
     pres = [0, 1, 5, 300, 1023, 1024] + ([2, 64, 1022, 1025] if thorough else [])
     for arch in ("x86", "x64"):
         for lfa in lfas:
@@ -280,14 +310,21 @@ def gen(tier, rng, shard, nshards):
                     for nsec in nsecs:
                         if not mine():
                             continue
-                        # (pl, lfa) large combos are slow; sample the other dimensions
+                        # full 1024-step scans (long prepend / no valid header) are the slow cases: the quick tier keeps
+                        # every (arch, e_lfanew, prepend) pair but samples the export × section-count sub-grid for them
+                        slow = pl >= 1023 or not (0 < lfa < 1024)
+                        if not thorough and rng.random() < (0.6 if slow else 0.3):
+                            continue
                         append = rng.choice([b"", b"APPENDED", C.rbytes(rng, rng.choice([1, 7, 100])), b"\x00\x00tail\x00", C.rbytes(rng, 1100)])
                         pad = rng.choice([0, 0, 3, 16, 1030])
                         magic = rng.choice([None, None, b"MZRE", b"MZAR", b"\x4d\x5a\x90\x00", b"", b"zz", C.rbytes(rng, 4)])
                         marker = rng.choice(["own", "own", "own", "x86", "x64", "none", "both"])
                         mpe = rng.choice([b"PE\x00\x00", b"PE\x00\x00", b"AB\x00\x00", b"\x00\x00\x00\x00", b"A\x00B\x00", b"WXYZ", b"\x00PE\x00"])
+                        marker_at = None
+                        if lfa >= 300 and rng.random() < 0.5:
+                            marker, marker_at = "none", rng.choice([249, 250, 251, 252, 255, 256, 100, 64])
                         img = Img(rng, arch=arch, lfanew=lfa, nsec=nsec, export=export, magic_mz=magic, marker=marker, magic_pe=mpe,
-                                  append=append, pad=pad)
+                                  append=append, pad=pad, marker_at=marker_at, overlap=rng.random() < 0.35)
                         body = img.build(rng)
                         prepend = safe_prepend(rng, pl)
                         data = prepend + body
@@ -296,7 +333,7 @@ def gen(tier, rng, shard, nshards):
                         yield from pe_lines(kind, data, 0, 0, 1024, exp)
                         # truncations of the same image (model correspondence; "return what is known")
                         bnds = img.boundaries()
-                        ntr = 3 if thorough else 1
+                        ntr = 2 if thorough else 1
                         for _ in range(ntr):
                             cut = pl + (rng.choice(bnds) if rng.random() < 0.8 else rng.randrange(0, len(body) + 1))
                             cut = max(0, min(cut, len(data)))
@@ -311,7 +348,7 @@ def gen(tier, rng, shard, nshards):
         lfa = rng.choice([64, 64, 100, 128, 199, 200, 201, maxrange - 1 if maxrange > 65 else 64, maxrange, 72])
         machine = rng.choice([None, None, None, 0x200, 0x14D, 0x8665, 0x6486, 0x4C01, 0])
         img = Img(rng, arch=arch, lfanew=lfa, nsec=rng.randrange(0, 4), export=rng.choice(["in", "in", "out", "none"]), machine=machine,
-                  append=rng.choice([b"", b"xyz\x00\x00"]), big_stamp=True)
+                  append=rng.choice([b"", b"xyz\x00\x00"]), big_stamp=True, overlap=rng.random() < 0.4)
         body = img.build(rng)
         pl = rng.choice([0, 1, 3, 63, 64, 99, 100, 101, 128, 199, 200, 300])
         prepend = safe_prepend(rng, pl)
@@ -386,6 +423,13 @@ def gen(tier, rng, shard, nshards):
                 yield "tbl", f"tbl {which} {key}"
     allpe = list(version.PE_EXPORT_STAMP_TO_VERSION)
     allen = list(version.MAX_ENUM_TO_VERSION)
+    # monotonicity witnesses: every pair of keys of each table (a failed `table_monotone_*` obligation has a failing pair here)
+    for which, keys in (("pe", allpe), ("enum", allen)):
+        for i, k1 in enumerate(keys):
+            for k2 in keys[i + 1:]:
+                if mine():
+                    a, b = (k1, k2) if k1 < k2 else (k2, k1)
+                    yield "mono", f"mono {which} {a} {b}"
     # precedence: stamp ∈ {None, 0, hit, miss} × enums
     stamps = ["none", "0"] + [str(x) for x in allpe] + [str(x + 1) for x in allpe[:6]] + ["-1", "1"]
     for st in stamps:
@@ -577,6 +621,15 @@ def impl(stream, line):
         key = int(w[2])
         bv = version.BeaconVersion.from_pe_export_stamp(key) if w[1] == "pe" else version.BeaconVersion.from_max_setting_enum(key)
         return f"{txt(str(bv))} {_ver(bv)}"
+    if stream == "mono":
+        mk = version.BeaconVersion.from_pe_export_stamp if w[1] == "pe" else version.BeaconVersion.from_max_setting_enum
+        k1, k2 = int(w[2]), int(w[3])
+        a, b = mk(k1), mk(k2)
+        if k1 >= k2:
+            return "T"
+        if a.tuple is None or b.tuple is None or a.date is None or b.date is None:
+            return "F"
+        return C.tf(a.tuple <= b.tuple and a.date <= b.date)
     if stream == "cfg":
         enums = C.unints(w[2])
         block = b"".join(struct.pack(">HHHI", e, 2, 4, 0x01020304) for e in enums) + b"\x00\x00"
@@ -605,6 +658,8 @@ def nontrivial(stream, line, out):
         return out.startswith("ok l")
     if stream in ("tbl", "fmt"):
         return " ok l" in out
+    if stream == "mono":
+        return out == "T"
     if stream == "cfg":
         return out != "ok " + txt("Unknown")
     return True
@@ -637,6 +692,8 @@ def oracle(stream, line, out):
         if key in tbl:
             return _shape_ok(text, out.split(" ", 1)[1])
         return out.endswith(" ok none")
+    if stream == "mono":
+        return out == "T"
     if stream == "cfg":
         st = None if w[1] == "none" else int(w[1])
         enums = C.unints(w[2])
@@ -690,6 +747,8 @@ def _shape_ok(text: str, ver_out: str) -> bool:
 
 
 def shrink(stream, line):
+    if stream in ("mono", "tbl"):
+        return  # the keys are the witness; shrinking an integer key leaves the table
     if stream in PE_OPS:
         w = line.split(" ")
         # shrinking invalidates the builder's expectation
